@@ -322,6 +322,25 @@ def check_c29(prog):
         # stack (e.g. IndirectCallCycleError on its next query), so after a failed child run the parent database is
         # queried through a fresh engine; after a successful one through the same engine (interleaved queries)
         got_parent = run(parent, eng) if got_child[0] == "ok" else run(parent, DefaultEngine())
+        # two sibling extensions of the parent that both load a library and define a rule on it: what one extension
+        # loaded must not count as loaded for the other
+        if rng.random() < 0.3:
+            lib = ":- use_module(library(lists)).\nlm(X) :- member(X, [a,b]).\n"
+            from problog.logic import Term as _T
+            sib = []
+            for _ in range(2):
+                try:
+                    e2 = DefaultEngine()
+                    c2 = parent.extend()
+                    for cl in PrologString(lib):
+                        c2 += cl
+                    c2 = e2.prepare(c2)         # (processes the directive that was added)
+                    sib.append(sorted(str(a[0]) for a in e2.query(c2, _T("lm", None))))
+                except Exception as ex:      # noqa
+                    sib.append(classify_exception(ex))
+            if sib[0] != sib[1] or sib[0] != ["a", "b"]:
+                out["violations"].append(("sibling-extensions", "two extensions of one database that both load library(lists) "
+                                          "and define lm/1 on member/2 answer %s and %s, expected ['a', 'b'] twice" % (sib[0], sib[1])))
         # the clauses the extension enumerates (ClauseDB.__iter__), evaluated as a program of their own
         if ref[0] == "ok":
             try:
